@@ -248,6 +248,21 @@ theorem C08_instances (cs : List Call) (r : Obj) (I : Inst) (h : (run BState.ini
     InstOk (run BState.init cs).syms I :=
   (C08_reachable cs).insts r I h
 
+/-- "maps exactly its bound parameters to argument expressions": the keys of the mapping are pairwise distinct and are precisely the
+    bound parameters, so every bound parameter has one argument expression and nothing else has any -- at every instantiation level,
+    whatever the parameters are called (keys are symbols, not names) -/
+theorem C08_mapping_exact (cs : List Call) (r : Obj) (I : Inst) (h : (run BState.init cs).doc.inst? r = some I) :
+    (I.mapping.map Prod.fst).Nodup ∧ ∀ x, x ∈ I.mapping.map Prod.fst ↔ x ∈ I.params.drop I.unbound := by
+  have hI := (C08_reachable cs).insts r I h
+  refine ⟨hI.mapKeys, fun x => ?_⟩
+  rw [← hI.mapDom x]
+  constructor
+  · intro hx
+    obtain ⟨⟨a, e⟩, hm, hfst⟩ := List.mem_map.mp hx
+    exact ⟨e, by simpa [← hfst] using hm⟩
+  · rintro ⟨e, he⟩
+    exact List.mem_map.mpr ⟨(x, e), he, rfl⟩
+
 /-! ### clauses that depend on the callers' scope discipline
 
    `SafeRun s cs` (Lemmas/C08Own.lean): every popping callback other than proc_end is issued when the frame on top of the
